@@ -26,7 +26,8 @@ static const char *const fault_names[] = { "kill", "spurious_run", "queue_full",
 enum { P_COALESCED, P_RESTART, P_ATOMIC_MULTI, P_YIELD_REQUEUE_BEHIND, P_FAST_PATH, P_TIMER_FIRED,
        P_TIMERS_SAME_PASS, P_TIMER_TIE, P_TIMEOUT_IMMEDIATE, P_WRAP_0, P_WRAP_80, P_IDLE_PASS,
        P_KILL_TRUE, P_KILL_CURRENT, P_SELF_RUN, P_WAKE_NOW, P_WAKE_TIMER, P_WAKE_UNBOUNDED,
-       P_SHIFT_CHECKED, P_TIMER_AND_YIELDER, P_ATOMIC_FROM_FIBRE, P_EXIT_WITH_TIMER };
+       P_SHIFT_CHECKED, P_TIMER_AND_YIELDER, P_ATOMIC_FROM_FIBRE, P_EXIT_WITH_TIMER, P_MODEL_FORKED,
+       P_WRAP_BASE_IN_C01 };
 static const char *const probe_names[] = {
 	"reasons_coalesced", "exited_fibre_restarted", "several_atomic_requests_drained_together",
 	"yielder_requeued_behind_others", "single_yielder_fast_path", "timer_fired",
@@ -35,7 +36,8 @@ static const char *const probe_names[] = {
 	"kill_withdrew_something", "kill_of_current_fibre", "fibre_ran_itself",
 	"wakeup_is_now", "wakeup_is_timer", "wakeup_is_unbounded", "shift_invariance_compared",
 	"timer_expired_in_pass_that_requeued_a_yielder", "atomic_request_from_inside_fibre",
-	"exit_or_fail_with_timer_pending", NULL };
+	"exit_or_fail_with_timer_pending", "queued_fibre_called_fibre_timeout_model_forked",
+	"c01_history_on_wrap_placed_time_base", NULL };
 
 #define MAXF 6
 #define AQ_DEPTH 8
@@ -69,6 +71,18 @@ static struct {
 	bool drained_multi[MAXF];
 	int dispatches[MAXF];
 } M;
+
+/* Where the statement leaves two behaviours open (a fibre that is already queued calls
+ * fibre_timeout with a future due time: is a timer registered as well?) the reference forks:
+ * up to two candidate models run in lock step and a model that disagrees with an observation
+ * is dropped.  M is always the working copy of the primary surviving model. */
+static __typeof__(M) MS[2];
+static bool alive[2];
+
+static int primary(void)
+{
+	return alive[0] ? 0 : 1;
+}
 
 static void m_run_internal(int x)
 {
@@ -132,12 +146,14 @@ static bool m_run_atomic(int x)
 	return true;
 }
 
+static bool variant_b;	/* model B: a queued fibre's fibre_timeout registers a timer all the same */
+
 static bool m_timeout(uint32_t d)
 {
 	int c = M.current;
 	if ((int32_t)(d - M.now) <= 0)
 		return true;
-	if (!M.queued[c]) {
+	if (!M.queued[c] || variant_b) {
 		M.has_timer[c] = true;
 		M.due[c] = d;
 		M.tseq[c] = ++M.tctr;
@@ -184,8 +200,10 @@ static int m_pass_begin(uint32_t t)
 				sim_probe(P_TIMER_TIE);
 		M.has_timer[best] = false;
 		M.expired_now[best] = true;
-		M.queued[best] = true;
-		M.runq[M.nrun++] = best;
+		if (!M.queued[best]) {
+			M.queued[best] = true;
+			M.runq[M.nrun++] = best;
+		}
 		nexp++;
 		sim_probe(P_TIMER_FIRED);
 	}
@@ -221,6 +239,56 @@ static uint32_t m_wakeup(void)
 	}
 	sim_probe(P_WAKE_UNBOUNDED);
 	return M.now + FIBRE_UNBOUNDED_SLEEP;
+}
+
+/* ---- applying one operation to every surviving model ------------------------ */
+
+enum { OP_RUN, OP_KILL, OP_ATOMIC, OP_TIMEOUT, OP_PASS, OP_WAKE, OP_DISPATCHED };
+
+static int64_t model_op(int op, int a, uint32_t b)
+{
+	switch (op) {
+	case OP_RUN: m_run(a); return 0;
+	case OP_KILL: return m_kill(a);
+	case OP_ATOMIC: return m_run_atomic(a);
+	case OP_TIMEOUT: return m_timeout(b);
+	case OP_PASS: return m_pass_begin(b);
+	case OP_WAKE: return m_wakeup();
+	case OP_DISPATCHED:	/* fibre a was dispatched and will return state b */
+		M.fresh[a] = false;
+		M.dispatches[a]++;
+		M.cancelled[a] = false;
+		M.cur_state = b;
+		return 0;
+	}
+	return 0;
+}
+
+/* Apply op to all surviving models.  With compare set, models whose result differs from
+ * `real` are dropped; if that would drop every model the primary's result is returned (the
+ * caller reports the mismatch) and nothing is dropped.  Otherwise `real` is returned. */
+static int64_t apply_op(int op, int a, uint32_t b, bool compare, int64_t real)
+{
+	int64_t res[2] = { 0, 0 };
+	bool ok[2] = { false, false }, any = false;
+	for (int k = 0; k < 2; k++)
+		if (alive[k]) {
+			M = MS[k];
+			variant_b = k == 1;
+			res[k] = model_op(op, a, b);
+			MS[k] = M;
+			ok[k] = !compare || res[k] == real;
+			any |= ok[k];
+		}
+	variant_b = false;
+	if (!any) {
+		M = MS[primary()];
+		return res[primary()];
+	}
+	for (int k = 0; k < 2; k++)
+		alive[k] = alive[k] && ok[k];
+	M = MS[primary()];
+	return compare ? real : res[primary()];
 }
 
 /* ---- choices that can be replayed for the shifted second execution ------- */
@@ -272,7 +340,7 @@ static struct {
 	uint32_t w_timeout, w_atomic, w_kill, w_run;	/* action weights inside fibres */
 	uint32_t w_yield, w_wait, w_exit, w_fail;
 	int in_pass;			/* 1 while fibre_scheduler_next runs    */
-	int expected;			/* fibre the model says is dispatched   */
+	int expected[2];		/* fibre each model says is dispatched  */
 	int dispatched;			/* fibre the library dispatched (-1)    */
 	int body_calls;
 	bool started;			/* body entered at its first statement  */
@@ -281,9 +349,11 @@ static struct {
 	uint32_t steps_done;
 } S;
 
+/* C01's statement covers the whole dispatch behaviour, timers included, so under the C01
+ * check every dispatch mismatch is C01's; under C02/C03 the classes keep their owners */
 static const char *own(const char *c02_or_c01)
 {
-	return c02_or_c01;
+	return sim_prop_is("C01") ? "C01" : c02_or_c01;
 }
 
 static void classify_dispatch(int real, int model) __attribute__((noreturn));
@@ -331,13 +401,13 @@ static int body_actions(int x)
 			if (M.queued[y] || M.has_timer[y])
 				sim_fault(F_SPURIOUS_RUN);
 			fibre_run(&tf[y]->fibre);
-			m_run(y);
+			apply_op(OP_RUN, y, 0, false, 0);
 			sim_ev("f.run", x, y, 0);
 		} else if (v < S.w_run + S.w_atomic) {
 			if (M.natomic >= AQ_DEPTH && !S.queue_full_enabled)
 				continue;
 			bool r = fibre_run_atomic(&tf[y]->fibre);
-			bool m = m_run_atomic(y);
+			bool m = apply_op(OP_ATOMIC, y, 0, true, r);
 			sim_probe(P_ATOMIC_FROM_FIBRE);
 			if (!m)
 				sim_fault(F_QUEUE_FULL);
@@ -349,7 +419,7 @@ static int body_actions(int x)
 			if (y == x)
 				sim_probe(P_KILL_CURRENT);
 			bool r = fibre_kill(&tf[y]->fibre);
-			bool m = m_kill(y);
+			bool m = apply_op(OP_KILL, y, 0, true, r);
 			sim_fault(F_KILL);
 			if (m)
 				sim_probe(P_KILL_TRUE);
@@ -358,8 +428,13 @@ static int body_actions(int x)
 			if (r != m)
 				sim_fail("C01", "KILL_RET", "fibre_kill(%d) inside fibre %d returned %d, reference says %d", y, x, r, m);
 		} else {
-			/* scope: one unsatisfied timeout per dispatch, and not while already queued */
-			if (unsatisfied || M.queued[x])
+			/* scope: one unsatisfied timeout per dispatch.  A fibre that is already queued may
+			 * call fibre_timeout too; whether that also arms a timer is left open by the
+			 * statement, so the reference forks (once per run) and follows both readings */
+			if (unsatisfied)
+				continue;
+			bool fork = M.queued[x];
+			if (fork && (alive[0] && alive[1]))
 				continue;
 			int32_t delta;
 			switch (ch(8)) {
@@ -378,7 +453,18 @@ static int body_actions(int x)
 			}
 			uint32_t d = M.now + (uint32_t)delta;
 			bool r = fibre_timeout(d);
-			bool m = m_timeout(d);
+			if (fork && delta > 0) {
+				int p = primary();
+				MS[1 - p] = MS[p];
+				if (p == 1) {	/* keep "timer although queued" in slot 1 */
+					MS[0] = MS[1];
+					p = 0;
+				}
+				alive[0] = alive[1] = true;
+				S.expected[0] = S.expected[1] = x;	/* both agree on the dispatch in progress */
+				sim_probe(P_MODEL_FORKED);
+			}
+			bool m = apply_op(OP_TIMEOUT, 0, d, true, r);
 			if (m)
 				sim_probe(P_TIMEOUT_IMMEDIATE);
 			else
@@ -426,8 +512,18 @@ static int fibre_body(fibre_t *f)
 			sim_fail("C01", "DISPATCH:outside_pass", "fibre %d was invoked outside fibre_scheduler_next", x);
 		if (S.body_calls > 1)
 			sim_fail("C01", "DISPATCH:twice", "a second fibre (%d) was dispatched by one fibre_scheduler_next call", x);
-		if (x != S.expected)
-			classify_dispatch(x, S.expected);
+		{
+			bool any = false;
+			for (int k = 0; k < 2; k++)
+				any |= alive[k] && S.expected[k] == x;
+			if (!any) {
+				M = MS[primary()];
+				classify_dispatch(x, S.expected[primary()]);
+			}
+			for (int k = 0; k < 2; k++)
+				alive[k] = alive[k] && S.expected[k] == x;
+			M = MS[primary()];
+		}
 		if (fibre_self() != f)
 			sim_fail("C01", "SELF", "fibre_self() inside fibre %d does not name it", x);
 		if (S.started != M.fresh[x])
@@ -436,13 +532,11 @@ static int fibre_body(fibre_t *f)
 				 M.fresh[x] ? "start from its beginning" : "resume");
 		if (S.started && M.dispatches[x] > 0)
 			sim_probe(P_RESTART);
-		M.fresh[x] = false;
-		M.dispatches[x]++;
-		M.cancelled[x] = false;
 		sim_ev("dispatch", x, S.started, 0);
 		xl(1000 + x * 2 + S.started);
+		/* cur_state is only read at the next pass, so it can be recorded after the actions */
 		want_ret[x] = body_actions(x);
-		M.cur_state = want_ret[x];
+		apply_op(OP_DISPATCHED, x, want_ret[x], false, 0);
 		sim_ev("return", x, want_ret[x], 0);
 		S.started = false;
 		if (want_ret[x] == FIBRE_STATE_YIELDED) {
@@ -460,8 +554,13 @@ static int fibre_body(fibre_t *f)
 
 static void do_pass(uint32_t t)
 {
-	int m = m_pass_begin(t);
-	S.expected = m;
+	for (int k = 0; k < 2; k++)
+		if (alive[k]) {
+			M = MS[k];
+			S.expected[k] = m_pass_begin(t);
+			MS[k] = M;
+		}
+	M = MS[primary()];
 	S.dispatched = -1;
 	S.body_calls = 0;
 	S.started = false;
@@ -472,13 +571,24 @@ static void do_pass(uint32_t t)
 	sim_check_sanitizer();
 	if (S.dispatched < 0)
 		sim_ev("idle", 0, 0, 0), xl(999);
-	if (S.dispatched != m)
-		classify_dispatch(S.dispatched, m);
+	{
+		bool any = false;
+		for (int k = 0; k < 2; k++)
+			any |= alive[k] && S.expected[k] == S.dispatched;
+		if (!any) {
+			M = MS[primary()];
+			classify_dispatch(S.dispatched, S.expected[primary()]);
+		}
+		for (int k = 0; k < 2; k++)
+			alive[k] = alive[k] && S.expected[k] == S.dispatched;
+		M = MS[primary()];
+	}
+	int m = S.dispatched;
 	fibre_t *self = fibre_self();
 	if (self != (m >= 0 ? &tf[m]->fibre : NULL))
 		sim_fail("C01", "SELF", "after the pass fibre_self() names %s, the pass dispatched %s%d",
 			 self ? "a fibre" : "nothing", m < 0 ? "nothing " : "fibre ", m);
-	uint32_t mw = m_wakeup();
+	uint32_t mw = (uint32_t)apply_op(OP_WAKE, 0, 0, true, wake);
 	sim_ev("wake", (int32_t)(wake - t), 0, 0);
 	xl((int32_t)(wake - t));
 	if (wake != mw)
@@ -533,12 +643,15 @@ static void execute(uint32_t base, uint32_t nsteps)
 	memset(&M, 0, sizeof(M));
 	M.current = -1;
 	M.now = base;
+	alive[0] = true;
+	alive[1] = false;
 	for (int i = 0; i < nf; i++) {
 		tf[i] = sim_alloc(sizeof(tf_t));
 		tf[i]->id = i;
 		fibre_init(&tf[i]->fibre, fibre_body);
 		M.fresh[i] = true;
 	}
+	MS[0] = M;
 	S.in_pass = 0;
 	uint32_t t = base;
 	sim_clock = t;
@@ -572,7 +685,7 @@ static void execute(uint32_t base, uint32_t nsteps)
 				sim_fault(F_SPURIOUS_RUN);
 			sim_budget(2000000);
 			fibre_run(&tf[x]->fibre);
-			m_run(x);
+			apply_op(OP_RUN, x, 0, false, 0);
 			sim_ev("run", x, 0, 0);
 			sim_ops(1);
 		} else if (op == 8) {
@@ -587,7 +700,7 @@ static void execute(uint32_t base, uint32_t nsteps)
 					break;
 				sim_budget(2000000);
 				bool r = fibre_run_atomic(&tf[x]->fibre);
-				bool m = m_run_atomic(x);
+				bool m = apply_op(OP_ATOMIC, x, 0, true, r);
 				if (!m)
 					sim_fault(F_QUEUE_FULL);
 				sim_ev("atomic", x, r, 0);
@@ -599,7 +712,7 @@ static void execute(uint32_t base, uint32_t nsteps)
 		} else {
 			sim_budget(2000000);
 			bool r = fibre_kill(&tf[x]->fibre);
-			bool m = m_kill(x);
+			bool m = apply_op(OP_KILL, x, 0, true, r);
 			sim_fault(F_KILL);
 			if (m)
 				sim_probe(P_KILL_TRUE);
@@ -621,7 +734,7 @@ static void execute(uint32_t base, uint32_t nsteps)
 	S.w_yield = 0;	/* fibres stop yielding and acting so the system can come to rest */
 	S.flushing = true;
 	for (int k = 0; k < 64; k++) {
-		uint32_t mw = m_wakeup();
+		uint32_t mw = m_wakeup();	/* primary model (M) */
 		bool idle = M.nrun == 0 && M.natomic == 0 &&
 			    !(M.current >= 0 && M.cur_state == FIBRE_STATE_YIELDED);
 		bool timers = false;
@@ -668,7 +781,13 @@ static void run(void)
 		S.w_exit = sim_choose(2);
 		S.w_fail = sim_choose(2);
 	} else {
-		S.base = sim_choose(1000);	/* C01 is not meant to be sensitive to wrap bugs */
+		S.base = sim_choose(1000);
+		if (sim_chance(1, 4)) {
+			/* C01 quantifies over every time base too: a quarter of its histories sit
+			 * next to the wrap points (time steps stay small) */
+			S.base = bases[1 + sim_choose(7)] - sim_choose(300);
+			sim_probe(P_WRAP_BASE_IN_C01);
+		}
 		S.w_timeout = sim_choose(3);
 		S.w_run = 2 + sim_choose(4);
 		S.w_atomic = 1 + sim_choose(6);
